@@ -93,7 +93,42 @@ func runC03(r *core.Run) (bool, string) {
 	reps := r.Pick(12, 60)
 	for _, procs := range []string{"1", "2", "4", "16"} {
 		_, rerr := b.RunBin(bin, 5*time.Minute, []string{"GOMAXPROCS=" + procs, fmt.Sprintf("VB_REPEAT=%d", reps)})
-		if rerr != "" {
+		if rerr != "" && strings.Contains(rerr, "all goroutines are asleep - deadlock!") {
+			// Go's own deadlock report is a definite outcome of the program that was running (no clock involved):
+			// find the case by running the packages one at a time; the case the process died in is the first one
+			// of its package without a full set of results in that run
+			for _, p := range pkgs {
+				before := map[string]int{}
+				for _, cn := range b.Cases[p.Name] {
+					for _, k := range b.Multi[p.Name][cn] {
+						before[cn] += k
+					}
+				}
+				_, perr := b.RunBin(bin, 5*time.Minute, []string{"GOMAXPROCS=" + procs, fmt.Sprintf("VB_REPEAT=%d", reps), "VB_ONLY=" + p.Name})
+				r.Count("native_process_runs", 1)
+				if !strings.Contains(perr, "all goroutines are asleep - deadlock!") {
+					continue
+				}
+				for _, cn := range b.Cases[p.Name] {
+					after := 0
+					for _, k := range b.Multi[p.Name][cn] {
+						after += k
+					}
+					if after-before[cn] < reps {
+						if b.Multi[p.Name] == nil {
+							b.Multi[p.Name] = map[string]map[string]int{}
+						}
+						if b.Multi[p.Name][cn] == nil {
+							b.Multi[p.Name][cn] = map[string]int{}
+						}
+						b.Multi[p.Name][cn]["DEADLOCK"]++
+						r.Count("native_deadlock_reports", 1)
+						fmt.Printf("native run: Go's runtime reports a deadlock in %s/%s (GOMAXPROCS=%s)\n", p.Name, cn, procs)
+						break
+					}
+				}
+			}
+		} else if rerr != "" {
 			r.Inconclusive("go-run-" + strings.SplitN(rerr, ":", 2)[0])
 			fmt.Println("native run:", firstLines(rerr, 5))
 		}
@@ -230,6 +265,19 @@ func runC03(r *core.Run) (bool, string) {
 			if gv == "PANIC" {
 				continue
 			}
+			if gv == "DEADLOCK" {
+				// reported by Go's runtime: a model outcome only if some interleaving of the emitted program deadlocks too
+				has := false
+				for k := range ex.Outcomes {
+					if strings.HasPrefix(k, "deadlock") || strings.Contains(k, "deadlock") {
+						has = true
+					}
+				}
+				if !has {
+					missing = append(missing, "DEADLOCK (all goroutines asleep, reported by the Go runtime)")
+				}
+				continue
+			}
 			if ex.Outcomes["value:"+gv] == 0 {
 				missing = append(missing, gv)
 			}
@@ -275,7 +323,7 @@ func runC03(r *core.Run) (bool, string) {
 			if !sincon {
 				var smissing []string
 				for gv := range res.GoOutcomes {
-					if gv != "PANIC" && sex.Outcomes["value:"+gv] == 0 {
+					if gv != "PANIC" && gv != "DEADLOCK" && sex.Outcomes["value:"+gv] == 0 {
 						smissing = append(smissing, gv)
 					}
 				}
